@@ -10,7 +10,10 @@ import Revm.Model.Evm
 * `evm tx <caller> <gaslimit> <gasprice> <to|-> <value> <data|-> <nonce|-> <chainid|-> <prio|-> <blobhashes h,h|-> <maxblobfee|-> <accesslist a:k,k;a:|-> <authlist -|e|chain:addr:nonce:authority|x;…>`
   → `reject` | `<class> gas=<used> refund=<refunded> out=<hex|-> created=<addr|-> logs=<…> || <post-state>` | `panic` …
   `logs`: `<n>[<addr>:<topic,topic|->:<data|->]…` when short, else `<n>#<keccak of the canonical encoding>`;
-  post-state: the touched accounts sorted by address, `<addr>:<c?s?>:<balance>:<nonce>:<codehash>:<k=v,…|->` (changed slots). -/
+  post-state: the touched accounts sorted by address, `<addr>:<c?s?>:<balance>:<nonce>:<codehash>:<k=v,…|->` (changed slots).
+* `evm vector <relative path> <unit index> <fork> <post index>` → `pass`: the expectation that the implementation
+  passes this shipped reference vector (post-state root and logs hash as the vector says); the harness answers from a
+  real run. -/
 namespace Driver.Evm
 open Revm Revm.Hex Revm.Model Revm.Model.Evm
 
@@ -126,7 +129,7 @@ def stateStr (w : World) : String :=
 def errStr : Err → String
   | .panic _ => "panic"
   | .fatal m => s!"fatal:{m}"
-  | .oracleMiss m => s!"oracle-miss:{m}"
+  | .oracleMiss _ => "oracle-miss"
   | .outOfFuel => "out-of-fuel"
 
 def FUEL : Nat := 100000000
@@ -157,6 +160,8 @@ def handle (st : St) (toks : List String) : St × String :=
       ({ st with pcs := { addr := a, gasLimit := gl, input := input, cls := cls, gasUsed := used, out := out } :: st.pcs },
        "ok")
     | _, _, _, _, _, _ => (st, "bad-op")
+  -- a reference vector: the expectation is that the implementation passes it
+  | ["vector", _, _, _, _] => (st, "pass")
   | "tx" :: rest =>
     match parseTx rest with
     | some tx => (st, runTx st tx)
